@@ -114,6 +114,17 @@ fn read_progress(path: &str) -> (u64, u64, u64, u64) {
     (g(0), g(1), g(2), g(3))
 }
 
+/// Extra environment for the children of the next `run_isolated` call (e.g. VERIF_GUARD).
+static CHILD_ENV: std::sync::Mutex<Vec<(String, String)>> = std::sync::Mutex::new(Vec::new());
+
+/// Like `run_isolated`, with extra environment variables for the children. In a child process the
+/// first call runs the cases and exits, whatever its arguments.
+pub fn run_isolated_env(cli: &Cli, rep: &Report, check: &'static (dyn IsoCheck + 'static), env: &[(&str, &str)]) {
+    *CHILD_ENV.lock().unwrap() = env.iter().map(|(k, v)| (k.to_string(), v.to_string())).collect();
+    run_isolated(cli, rep, check);
+    CHILD_ENV.lock().unwrap().clear();
+}
+
 /// Entry point used by both parent and children.
 pub fn run_isolated(cli: &Cli, rep: &Report, check: &'static (dyn IsoCheck + 'static)) {
     if let Some((k, kk, resume, dir)) = child_args(cli) {
@@ -121,6 +132,11 @@ pub fn run_isolated(cli: &Cli, rep: &Report, check: &'static (dyn IsoCheck + 'st
         std::process::exit(0);
     }
     parent_main(cli, rep, check);
+}
+
+#[inline]
+fn owner(i: usize, kk: usize) -> usize {
+    (((i as u64).wrapping_mul(0x9E37_79B9_7F4A_7C15) >> 33) % kk as u64) as usize
 }
 
 fn child_main(cli: &Cli, check: &'static dyn IsoCheck, k: usize, kk: usize, resume: usize, dir: &str) {
@@ -146,16 +162,25 @@ fn child_main(cli: &Cli, check: &'static dyn IsoCheck, k: usize, kk: usize, resu
             let mut done = 0u64;
             let mut nontrivial = 0u64;
             let mut i = resume;
-            // first index >= resume that belongs to this child
-            while i % kk != k {
-                i += 1;
-            }
+            let mut last_final = Instant::now();
             while i < n {
+                // cases are dealt to the children by a hash of their index: neighbouring indices (which differ in one
+                // option and have correlated costs) do not systematically land on the same child
+                if owner(i, kk) != k {
+                    i += 1;
+                    continue;
+                }
                 if let Some(o) = &only {
                     if !o.contains(&check.desc(i)) {
-                        i += kk;
+                        i += 1;
                         continue;
                     }
+                }
+                // the counters of this segment survive a death in a later case: rewritten every 200 ms
+                if last_final.elapsed() > Duration::from_millis(200) {
+                    let counters: serde_json::Map<String, Value> = rep.counters().into_iter().map(|(k, v)| (k, json!(v))).collect();
+                    let _ = std::fs::write(&final_path, serde_json::to_string(&json!({"counters": counters})).unwrap());
+                    last_final = Instant::now();
                 }
                 write_progress(&mut pf, i as u64, done, nontrivial);
                 let nt = check.run(i, &rep);
@@ -167,7 +192,7 @@ fn child_main(cli: &Cli, check: &'static dyn IsoCheck, k: usize, kk: usize, resu
                     let line = json!({"kind": v.kind, "site": v.site, "attrs": v.attrs, "case": v.case, "detail": v.detail});
                     let _ = writeln!(vf, "{line}");
                 }
-                i += kk;
+                i += 1;
             }
             write_progress(&mut pf, u64::MAX, done, nontrivial);
             let counters: serde_json::Map<String, Value> = rep.counters().into_iter().map(|(k, v)| (k, json!(v))).collect();
@@ -235,6 +260,9 @@ fn spawn(cli: &Cli, k: usize, kk: usize, resume: usize, dir: &str) -> Child {
         c.arg("--only-file").arg(f);
     }
     c.arg("--child").arg(format!("{k}/{kk}")).arg("--resume-from").arg(resume.to_string()).arg("--dir").arg(dir);
+    for (k, v) in CHILD_ENV.lock().unwrap().iter() {
+        c.env(k, v);
+    }
     c.stdin(Stdio::null()).stdout(Stdio::null()).stderr(Stdio::null());
     c.spawn().expect("spawn child")
 }
